@@ -107,3 +107,127 @@ Theorem C06_QI_primitive_generic_agree : forall (p : profile) (rt : Q -> Q) (met
   dp = dg.
 Proof. exact QI_primitive_generic_agree. Qed.
 Print Assumptions C06_QI_primitive_generic_agree.
+
+(* ---- nnchain = primitive on tie-free inputs: the same hierarchy at the same
+   heights (Proofs/RnnConfluence.v, AgreeChain.v) ----
+   nnchain does not merge in the greedy order; both runs are maximal sequences
+   of merges of strict reciprocal nearest neighbours, and all such sequences
+   create the same nodes when the criterion is reducible. *)
+Require Import KV.Model.Chain KV.Proofs.LWInvariant KV.Proofs.SortProofs KV.Proofs.RnnConfluence KV.Proofs.AgreeChain
+  KV.Proofs.AgreeChainInstances KV.Proofs.ChainIter KV.Proofs.Criteria KV.Proofs.CriteriaRun.
+From Coq Require Import Permutation.
+
+(* the abstract theorem: maximal strict-RNN merge sequences are confluent *)
+Theorem C06_rnn_confluence : forall (T : Type) (ltb : T -> T -> bool),
+  (forall a, ltb a a = false) ->
+  (forall a b c, ltb a b = true -> ltb b c = true -> ltb a c = true) ->
+  (forall a b c, ltb a b = false -> ltb b c = false -> ltb a c = false) ->
+  forall crit : mtree -> mtree -> T -> Prop,
+  (forall A B v, crit A B v -> crit B A v) ->
+  (forall X A B va vb md, crit X A va -> crit X B vb -> crit A B md -> exists w, crit X (Node A B) w) ->
+  (forall X A B va vb md w, crit X A va -> crit X B vb -> crit A B md -> crit X (Node A B) w ->
+     ltb md va = true -> ltb md vb = true -> ltb w va = false \/ ltb w vb = false) ->
+  forall S ns2, rseq ltb crit S ns2 -> SInv crit S -> forall ns1, rseq ltb crit S ns1 -> Permutation ns1 ns2.
+Proof. exact rnn_confluence. Qed.
+Print Assumptions C06_rnn_confluence.
+
+(* the notions, pinned *)
+Theorem C06_rnn_defs : forall (T : Type) (ltb : T -> T -> bool) (crit : mtree -> mtree -> T -> Prop)
+  (S : list mtree) (A B : mtree),
+  (srnn ltb crit S A B <->
+     In A S /\ In B S /\ A <> B
+     /\ exists v, crit A B v
+          /\ forall X w, In X S -> X <> A -> X <> B -> (crit A X w \/ crit B X w) -> ltb v w = true)
+  /\ (SInv crit S <->
+        NoDup (flat_map leaves S) /\ forall X Y, In X S -> In Y S -> X <> Y -> exists w, crit X Y w)
+  /\ after A B S = mk A B :: remove mtree_eq_dec A (remove mtree_eq_dec B S)
+  /\ mk A B = (if maxleaf A <? maxleaf B then Node A B else Node B A).
+Proof. intros; split; [|split; [|split]]; try reflexivity; split; intros Hx; exact Hx. Qed.
+Print Assumptions C06_rnn_defs.
+
+Theorem C06_nnchain_primitive_same_hierarchy : forall (T : Type) (K : kops T) (p : profile) (meth : method),
+  (forall a, k_ltb K a a = false) ->
+  (forall a b c, k_ltb K a b = true -> k_ltb K b c = true -> k_ltb K a c = true) ->
+  (forall a b c, k_ltb K a b = false -> k_ltb K b c = false -> k_ltb K a c = false) ->
+  (forall va vb md sa sb sx, size_ok meth sa sb sx ->
+     k_ltb K va md = false -> k_ltb K vb md = false ->
+     k_ltb K (k_upd K va vb md sa sb sx) va = false \/ k_ltb K (k_upd K va vb md sa sb sx) vb = false) ->
+  forall crit : mtree -> mtree -> T -> Prop,
+  (forall A B v, crit A B v -> crit B A v) ->
+  (forall X A B va vb md, crit X A va -> crit X B vb -> crit A B md ->
+     crit X (Node A B) (k_upd K va vb md (tsize A) (tsize B) (if uses_size_x meth then tsize X else 0))) ->
+  (uses_sizes_ab meth = false ->
+     forall va vb md sa sb sa' sb' sx, k_upd K va vb md sa sb sx = k_upd K va vb md sa' sb' sx) ->
+  (forall A B v w, crit A B v -> crit A B w -> k_ltb K v w = false /\ k_ltb K w v = false) ->
+  forall s1 d1 s2 d2 m n sp dp mp sc dc mc M0,
+  prologue p (square_all K m) n = Ok M0 ->
+  (forall x y v, x <> y -> x < m_obs M0 -> y < m_obs M0 -> wcell M0 x y = Some v -> crit (Leaf x) (Leaf y) v) ->
+  primitive_with K p meth s1 d1 m n = Ok (sp, dp, mp) ->
+  nnchain_with K p meth s2 d2 m n = Ok (sc, dc, mc) ->
+  distinct_from K (prim_iter K p meth) 0 (m_obs M0 - 1) (st_reset K s1 (m_obs M0)) (d_reset d1 (m_obs M0)) M0 ->
+  distinct_from K (chain_iter K p meth) 0 (m_obs M0 - 1)
+    (st_with_chain (st_reset K s2 (m_obs M0)) []) (d_reset d2 (m_obs M0)) M0 ->
+  exists raw_p raw_c,
+    length raw_p = m_obs M0 - 1 /\ length raw_c = m_obs M0 - 1
+    /\ Permutation (heights dp) (map (k_rt K) (map (@s_dis T) raw_p))
+    /\ Permutation (heights dc) (map (k_rt K) (map (@s_dis T) raw_c))
+    /\ Permutation (nodes_of Leaf raw_p) (nodes_of Leaf raw_c)
+    /\ (forall N v w, In (N, v) (node_heights Leaf raw_p) -> In (N, w) (node_heights Leaf raw_c) ->
+          k_ltb K v w = false /\ k_ltb K w v = false).
+Proof. exact nnchain_primitive_same_hierarchy. Qed.
+Print Assumptions C06_nnchain_primitive_same_hierarchy.
+
+(* tie-freeness of a run, pinned *)
+Theorem C06_distinct_from_def : forall (T : Type) (K : kops T) iter i k (s : lstate T) (d : dend T) (M : cmat T),
+  distinct_from K iter i k s d M <->
+  (forall j s' d' M' L', j < k -> mfold iter (seq i j) (s, d, M) = Ok (s', d', M') ->
+     AInv (st_active s') L' ->
+     forall x y x' y' v w, In x L' -> In y L' -> x <> y -> In x' L' -> In y' L' -> x' <> y' ->
+       ~ (x = x' /\ y = y') -> ~ (x = y' /\ y = x') ->
+       wcell M' x y = Some v -> wcell M' x' y' = Some w -> k_ltb K v w = true \/ k_ltb K w v = true).
+Proof. intros; split; intros Hx; exact Hx. Qed.
+Print Assumptions C06_distinct_from_def.
+
+(* single / complete, any carrier with a strict weak order *)
+Theorem C06_selection_nnchain_primitive : forall (T : Type) (F : fops T) (p : profile),
+  (forall a, f_ltb F a a = false) ->
+  (forall a b c, f_ltb F a b = true -> f_ltb F b c = true -> f_ltb F a c = true) ->
+  (forall a b c, f_ltb F a b = false -> f_ltb F b c = false -> f_ltb F a c = false) ->
+  forall meth s1 d1 s2 d2 (m : list T) n sp dp mp sc dc mc M0,
+  meth = Single \/ meth = Complete ->
+  prologue p m n = Ok M0 ->
+  primitive_with (kops_of F meth) p meth s1 d1 m n = Ok (sp, dp, mp) ->
+  nnchain_with (kops_of F meth) p meth s2 d2 m n = Ok (sc, dc, mc) ->
+  distinct_from (kops_of F meth) (prim_iter (kops_of F meth) p meth) 0 (m_obs M0 - 1)
+    (st_reset (kops_of F meth) s1 (m_obs M0)) (d_reset d1 (m_obs M0)) M0 ->
+  distinct_from (kops_of F meth) (chain_iter (kops_of F meth) p meth) 0 (m_obs M0 - 1)
+    (st_with_chain (st_reset (kops_of F meth) s2 (m_obs M0)) []) (d_reset d2 (m_obs M0)) M0 ->
+  exists raw_p raw_c,
+    length raw_p = m_obs M0 - 1 /\ length raw_c = m_obs M0 - 1
+    /\ Permutation (heights dp) (map (@s_dis T) raw_p)
+    /\ Permutation (heights dc) (map (@s_dis T) raw_c)
+    /\ Permutation (nodes_of Leaf raw_p) (nodes_of Leaf raw_c)
+    /\ (forall N v w, In (N, v) (node_heights Leaf raw_p) -> In (N, w) (node_heights Leaf raw_c) ->
+          f_ltb F v w = false /\ f_ltb F w v = false).
+Proof. exact selection_nnchain_primitive_same_hierarchy. Qed.
+Print Assumptions C06_selection_nnchain_primitive.
+
+(* average / weighted / ward in exact rational arithmetic: all hypotheses discharged *)
+Theorem C06_Q_nnchain_primitive : forall (p : profile) (rt : Q -> Q) meth s1 d1 s2 d2 (m : list Q) n sp dp mp sc dc mc M0,
+  meth = Average \/ meth = Weighted \/ meth = Ward ->
+  prologue p (square_all (kops_of (QFr rt) meth) m) n = Ok M0 ->
+  primitive_with (kops_of (QFr rt) meth) p meth s1 d1 m n = Ok (sp, dp, mp) ->
+  nnchain_with (kops_of (QFr rt) meth) p meth s2 d2 m n = Ok (sc, dc, mc) ->
+  distinct_from (kops_of (QFr rt) meth) (prim_iter (kops_of (QFr rt) meth) p meth) 0 (m_obs M0 - 1)
+    (st_reset (kops_of (QFr rt) meth) s1 (m_obs M0)) (d_reset d1 (m_obs M0)) M0 ->
+  distinct_from (kops_of (QFr rt) meth) (chain_iter (kops_of (QFr rt) meth) p meth) 0 (m_obs M0 - 1)
+    (st_with_chain (st_reset (kops_of (QFr rt) meth) s2 (m_obs M0)) []) (d_reset d2 (m_obs M0)) M0 ->
+  exists raw_p raw_c,
+    length raw_p = m_obs M0 - 1 /\ length raw_c = m_obs M0 - 1
+    /\ Permutation (heights dp) (map (k_rt (kops_of (QFr rt) meth)) (map (@s_dis Q) raw_p))
+    /\ Permutation (heights dc) (map (k_rt (kops_of (QFr rt) meth)) (map (@s_dis Q) raw_c))
+    /\ Permutation (nodes_of Leaf raw_p) (nodes_of Leaf raw_c)
+    /\ (forall N v w, In (N, v) (node_heights Leaf raw_p) -> In (N, w) (node_heights Leaf raw_c) ->
+          f_ltb QF v w = false /\ f_ltb QF w v = false).
+Proof. exact Q_nnchain_primitive_same_hierarchy. Qed.
+Print Assumptions C06_Q_nnchain_primitive.
